@@ -18,6 +18,8 @@ import (
 	"io"
 	"net"
 	"sync"
+
+	"github.com/samaritan-proxy/samaritan/utils/vhook"
 )
 
 type session struct {
@@ -85,6 +87,7 @@ func (s *session) loopRead() {
 		req := newRawRequest(v)
 		s.p.handleRequest(req)
 
+		vhook.At("redis.session.read.before_enqueue")
 		select {
 		case s.processingReqs <- req:
 		case <-s.quit:
@@ -105,6 +108,7 @@ func (s *session) loopWrite() {
 		case req = <-s.processingReqs:
 		}
 
+		vhook.At("redis.session.write.before_wait")
 		req.Wait()
 		// TODO(kirk91): abstract response
 		resp := req.Response()
